@@ -689,4 +689,150 @@ theorem itemsAl_append_arg (ls : List HTok) (a rest : List PTok) (items : List I
         exact ItemsAl.tk t _ _ s hw' (hnc t (by simp)) htok.1 (ih ls' htok.2 hr)
 
 
+theorem pasteParams_tail (prev : Option Tok) (t : PTok) (r : List PTok) (j : Nat)
+    (h : j ∈ pasteParams (nextPrev prev t) r) : j ∈ pasteParams prev (t :: r) := by
+  rw [pasteParams]
+  unfold nextPrev at h
+  split
+  · split
+    · exact List.mem_cons_of_mem _ h
+    · exact h
+  · exact h
+
+theorem specBodyTok_plain (k : Tok) (h1 : ∀ i, k ≠ .arg i) (h2 : k ≠ .concat) : specBodyTok k = k := by
+  cases k <;> first | rfl | exact absurd rfl (h1 _) | exact absurd rfl h2
+
+/-- the items of the reference line up with the replacement list as the model substituted it -/
+theorem itemsP_al (largs eargs : List (List HTok)) (args' : List (List PTok)) (mb : List PTok) :
+    ∀ (prev : Option Tok) (body' : List PTok), substitute mb args' = .ok body' →
+    (∀ (i : Nat) (a' : List PTok), args'[i]? = some a' → NoConcat a') →
+    (∀ t ∈ mb, ∀ i, t.tok = .arg i → (eargs.getD i []).map (·.tok) = ppTokens (args'.getD i [])) →
+    (∀ i, i ∈ pasteParams prev mb → (largs.getD i []).map (·.tok) = ppTokens (args'.getD i [])) →
+    ItemsAl (itemsP largs eargs prev mb) body' := by
+  induction mb with
+  | nil => intro prev body' h _ _ _; simp only [substitute] at h; cases h; exact ItemsAl.nil
+  | cons t r ih =>
+    intro prev body' h hnc hexp hraw
+    have hexp' : ∀ x ∈ r, ∀ i, x.tok = .arg i → (eargs.getD i []).map (·.tok) = ppTokens (args'.getD i []) :=
+      fun x hx => hexp x (by simp [hx])
+    unfold substitute at h
+    split at h
+    · rename_i i hti
+      split at h
+      · cases h
+      · rename_i a hget
+        cases hs : substitute r args' with
+        | error e => simp [hs] at h
+        | ok r' =>
+          simp only [hs] at h
+          cases h
+          have hw' : t.tok.isWhitespace = false := by rw [hti]; rfl
+          have hrec := ih (some t.tok) r' hs hnc hexp' (fun j hj => hraw j (by
+            apply pasteParams_tail; simpa [nextPrev, hw'] using hj))
+          simp only [itemsP, hw', Bool.false_eq_true, if_false, hti]
+          have hgd : args'.getD i [] = a := by simp [List.getD, hget]
+          apply itemsAl_append_arg _ a r' _ ?_ (hnc i a hget)
+          · rw [hti] at hrec; exact hrec
+          · split
+            · rename_i hadj
+              have := hraw i (by
+                rw [pasteParams]
+                simp only [hti, hadj, if_true]
+                exact List.mem_cons_self)
+              rw [hgd] at this; exact this
+            · have := hexp t (by simp) i hti
+              rw [hgd] at this; exact this
+    · rename_i hnarg
+      cases hs : substitute r args' with
+      | error e => simp [hs] at h
+      | ok r' =>
+        simp only [hs] at h
+        cases h
+        by_cases hw : t.tok.isWhitespace = true
+        · simp only [itemsP, hw, if_true]
+          exact ItemsAl.ws t r' _ hw (ih prev r' hs hnc hexp' (fun j hj => hraw j (by
+            apply pasteParams_tail; simpa [nextPrev, hw] using hj)))
+        · have hw' : t.tok.isWhitespace = false := by simpa using hw
+          have hrec := ih (some t.tok) r' hs hnc hexp' (fun j hj => hraw j (by
+            apply pasteParams_tail; simpa [nextPrev, hw'] using hj))
+          simp only [itemsP, hw', Bool.false_eq_true, if_false]
+          cases htk : t.tok with
+          | concat =>
+            rw [htk] at hrec
+            exact ItemsAl.cc t r' _ htk hrec
+          | arg i => exact absurd htk (hnarg i)
+          | _ =>
+            rw [htk] at hrec
+            refine ItemsAl.tk t r' _ _ hw' (by rw [htk]; simp) ?_ hrec
+            rw [htk]; rfl
+
+/-- every item `replaceParams` makes is a token of the replacement list (empty hide set) or comes out of an
+argument whose names are disabled -/
+theorem itemsP_good (env : List Entry) (largs eargs : List (List HTok)) (mb : List PTok)
+    (hl : ∀ a ∈ largs, ∀ s ∈ a, GoodItem env (.tok s)) (he : ∀ a ∈ eargs, ∀ s ∈ a, GoodItem env (.tok s)) :
+    ∀ (prev : Option Tok), ∀ it ∈ itemsP largs eargs prev mb, it = .paste ∨ GoodItem env it := by
+  induction mb with
+  | nil => intro prev it hit; simp [itemsP] at hit
+  | cons t r ih =>
+    intro prev it hit
+    unfold itemsP at hit
+    split at hit
+    · exact ih _ it hit
+    · split at hit
+      · rcases List.mem_cons.mp hit with rfl | hit
+        · exact Or.inl rfl
+        · exact ih _ it hit
+      · rename_i i _
+        rcases List.mem_append.mp hit with hm | hm
+        · right
+          obtain ⟨s, hs, rfl⟩ := List.mem_map.mp hm
+          split at hs
+          · cases hg : largs[i]? with
+            | none => simp [List.getD, hg] at hs
+            | some a =>
+              simp only [List.getD, hg, Option.getD_some] at hs
+              exact hl a (List.mem_of_getElem? hg) s hs
+          · cases hg : eargs[i]? with
+            | none => simp [List.getD, hg] at hs
+            | some a =>
+              simp only [List.getD, hg, Option.getD_some] at hs
+              exact he a (List.mem_of_getElem? hg) s hs
+        · exact ih _ it hm
+      · rcases List.mem_cons.mp hit with rfl | hit
+        · exact Or.inr (Or.inl rfl)
+        · exact ih _ it hit
+
+
+/-- **`subst` on a replacement list with `##`**: the result spells the paste normal form of the replacement list as
+the model substituted it; every token of it is a token of the replacement list (hide set = the new hide set) or names
+no enabled macro -/
+theorem subst_paste (ex : List HTok → Except SErr (List HTok)) (env' : List Entry) (m : Macro) (np : Nat)
+    (hparams : (ofMacro m).params.getD [] = paramNames np) (largs eargs : List (List HTok))
+    (args' : List (List PTok)) (hsNew : List String) (body' : List PTok) (ks : List Tok)
+    (hbody : BodyOK np m.body)
+    (hex : ∀ i, i < np → ∃ ea, eargs[i]? = some ea ∧ ex (largs.getD i []) = .ok ea)
+    (hne : ∀ i, i ∈ pasteParams none m.body → (largs.getD i []).isEmpty = false)
+    (hsub : substitute m.body args' = .ok body')
+    (hncargs : ∀ (i : Nat) (a' : List PTok), args'[i]? = some a' → NoConcat a')
+    (hexp : ∀ t ∈ m.body, ∀ i, t.tok = .arg i → (eargs.getD i []).map (·.tok) = ppTokens (args'.getD i []))
+    (hraw : ∀ i, i ∈ pasteParams none m.body → (largs.getD i []).map (·.tok) = ppTokens (args'.getD i []))
+    (hgl : ∀ a ∈ largs, ∀ s ∈ a, GoodItem env' (.tok s)) (hge : ∀ a ∈ eargs, ∀ s ∈ a, GoodItem env' (.tok s))
+    (hpn : PN env' body' ks) :
+    ∃ out : List HTok, subst ex (ofMacro m) largs hsNew = .ok (out.map (fun s => ⟨s.tok, s.hide ++ hsNew⟩)) ∧
+      out.map (·.tok) = ks ∧ ∀ s ∈ out, GoodItem env' (.tok s) := by
+  have hrp := replaceParams_paste ex np largs eargs hex m.body none hbody (by simp) hne
+  have hal := itemsP_al largs eargs args' m.body none body' hsub hncargs hexp hraw
+  obtain ⟨out, hdp, hks, hgood⟩ := doPastes_pn hpn _ hal (itemsP_good env' largs eargs m.body hgl hge none) []
+  refine ⟨out, ?_, hks, hgood⟩
+  unfold subst
+  rw [hparams]
+  have hb : (ofMacro m).body = (ppTokens m.body).map specBodyTok := rfl
+  rw [hb]
+  simp only [Option.map_none] at hrp
+  rw [hrp]
+  simp only
+  rw [hdp]
+  simp [List.filterMap_map, Function.comp_def]
+
+
 end RsslVerif.Lemmas.MacroTamePSpec
